@@ -3,6 +3,7 @@
 From J1939 Require Import Base CodecGlue Model21 Model22 Dm1Model.
 From J1939.gen Require Import Codec Tp21Gen CaGen DiagGen Tp22Gen.
 From J1939P Require Import CodecProofs DiagProofs Flat Tp21Seg Net21 Net21Bam MpgProofs Net22 Net22Proofs Net22Bam Dm1Net.
+From J1939P Require Net21Seq Net21BamSeq.
 
 Theorem C16_dtc_roundtrip : forall spn fmi oc, 0 <= spn < 524288 -> 0 <= fmi < 32 -> 0 <= oc < 128 ->
   dtc_unpack (dtc_pack spn fmi oc) = (spn, fmi, oc, 0).
@@ -84,3 +85,18 @@ Theorem C16_dm1_over_fd_broadcast_end_to_end : forall pl awl rsl mil dtcs sa t0 
     dm1_parse p = Some ([pl; awl; rsl; mil], dtcs).
 Proof. exact dm1_over_fd_broadcast_end_to_end. Qed.
 Print Assumptions C16_dm1_over_fd_broadcast_end_to_end.
+
+(* "each cycle": every cycle of a cyclic DM1 — whatever the callback supplies at each cycle (lamp states and 2..445 trouble codes,
+   varying freely from cycle to cycle), each sent when the previous one has gone out — reaches the listeners of the other node
+   as one payload per cycle, in order, and the k-th payload parses back to exactly what the k-th cycle supplied; for ANY number
+   of cycles *)
+Theorem C16_dm1_every_cycle_delivers : forall sa iv, 0 <= sa < 255 -> 0 < iv < tp21_T1 ->
+  forall cs s, Forall Net21BamSeq.dm1c_ok cs -> Net21.qa s = [] -> Net21.qb s = [] -> 0 < Net21.clk s ->
+  Net21BamSeq.bpremA iv (Net21.na s) -> Net21BamSeq.bpremB (Net21.nb s) ->
+  exists s', Net21BamSeq.bseq_reach sa s (map Net21BamSeq.dm1_msg cs) s' /\
+    Net21.qa s' = [] /\ Net21.qb s' = [] /\ Net21BamSeq.bpremA iv (Net21.na s') /\ Net21BamSeq.bpremB (Net21.nb s') /\
+    Net21.evb s' = Net21.evb s ++ concat (map (fun c => deliveries (Net21.nb s) 7 65226 sa addr_GLOBAL (Net21BamSeq.dm1_payload c)) cs) /\
+    Forall (fun c => dm1_parse (Net21BamSeq.dm1_payload c) =
+                     Some ([Net21BamSeq.c_pl c; Net21BamSeq.c_awl c; Net21BamSeq.c_rsl c; Net21BamSeq.c_mil c], Net21BamSeq.c_dtcs c)) cs.
+Proof. exact Net21BamSeq.dm1_every_cycle_delivers. Qed.
+Print Assumptions C16_dm1_every_cycle_delivers.
